@@ -35,9 +35,15 @@ type jsonReport struct {
 	Latencies struct {
 		Total, Mean, Max, Min int64
 	} `json:"latencies"`
-	Buckets  json.RawMessage `json:"buckets"`
-	BytesIn  struct{ Total uint64; Mean float64 } `json:"bytes_in"`
-	BytesOut struct{ Total uint64; Mean float64 } `json:"bytes_out"`
+	Buckets json.RawMessage `json:"buckets"`
+	BytesIn struct {
+		Total uint64
+		Mean  float64
+	} `json:"bytes_in"`
+	BytesOut struct {
+		Total uint64
+		Mean  float64
+	} `json:"bytes_out"`
 	Earliest, Latest, End time.Time
 	Duration, Wait        int64
 	Requests              uint64
@@ -294,13 +300,13 @@ func runReportCmd(tt *testing.T, prop string, tape *simrt.Tape, keep bool) (out 
 	fin := reps[len(reps)-1]
 	// reference
 	var (
-		bin, bout uint64
-		tot       int64
-		mn, mx    int64
-		succ      uint64
+		bin, bout             uint64
+		tot                   int64
+		mn, mx                int64
+		succ                  uint64
 		earliest, latest, end time.Time
-		codes     = map[string]int{}
-		errs      = map[string]bool{}
+		codes                 = map[string]int{}
+		errs                  = map[string]bool{}
 	)
 	for i := range rs {
 		x := &rs[i]
